@@ -1,7 +1,7 @@
 \* the suite pool of a script package as REPLAY records (initial states only)
 CONSTANTS
   PType = "script"
-  MaxLen = 3
+  MaxLen = 2
   CoreLen = 4
   Runners = 1
   Shared = FALSE
